@@ -300,7 +300,7 @@ def plan(ctx: Ctx) -> list:
             items += _items('gates', n, sq_all, st, seed)
     # F2: circuits with barrier-like operations
     aware = ['quick', 'single'] if q else AWARE
-    for n, ln in ((2, 3), (3, 3), (4, 2)) if q else ((2, 4), (3, 3), (4, 3)):
+    for n, ln in ((2, 3), (3, 3), (4, 2)) if q else ((2, 4), (3, 4), (4, 3)):
         items += _items('pseudo-aware', n, sequences(n, ln, 'pseudo'),
                         stage_lists(aware, n, top), seed)
     for n, ln in ((2, 2), (3, 2)) if q else ((2, 3), (3, 2), (4, 2)):
